@@ -507,6 +507,33 @@ Proof.
   - exact HU.
 Qed.
 
+(* seed acceptance does not depend on the trusted group: --trusted-group only enters the walk over the seed's
+   directories (sr_refuse); what is used, removed or blocks is the same under any two trusted groups *)
+Theorem seed_ignores_trusted_group force id tg tg' cr o chain :
+  sr_refuse (seed_step force id tg cr o chain) = None ->
+  sr_refuse (seed_step force id tg' cr o chain) = None ->
+  sr_used (seed_step force id tg cr o chain) = sr_used (seed_step force id tg' cr o chain) /\
+  sr_removed (seed_step force id tg cr o chain) = sr_removed (seed_step force id tg' cr o chain) /\
+  sr_hang (seed_step force id tg cr o chain) = sr_hang (seed_step force id tg' cr o chain).
+Proof.
+  unfold seed_step.
+  destruct (dir_verdict FSeed o id tg chain) as [|i r], (dir_verdict FSeed o id tg' chain) as [|i' r'], force;
+  destruct (seed_blocks o); destruct (seed_read id o) as [bad used]; cbn; intros H H';
+  try discriminate; repeat split; reflexivity.
+Qed.
+
+(* ... in particular a seed with a group read or write bit is never used, whatever its group — the trusted
+   group included — and whatever --trusted-group is *)
+Theorem seed_group_bits_never_used force id tg cr o chain s :
+  o_stat o = Some s -> N.land (f_mode s) 48 <> 0 ->
+  sr_used (seed_step force id tg cr o chain) = false.
+Proof.
+  intros E G. destruct (sr_used (seed_step force id tg cr o chain)) eqn:U; [|reflexivity].
+  exfalso. apply (proj1 (seed_spec force id tg cr o chain)) in U.
+  destruct U as (_ & s' & E' & _ & _ & M). assert (s' = s) by congruence. subst s'.
+  apply G. change 48 with (N.land 54 48). rewrite N.land_assoc, M. reflexivity.
+Qed.
+
 (* ---- log file ---- *)
 Definition log_ok (euid : N) (o : fobs) : Prop :=
   o_symlink o = false /\
